@@ -30,10 +30,12 @@ void vf_replay_assume_fail (const char *file, int line);
 #define __CPROVER_DYNAMIC_OBJECT(p) 1
 #define __CPROVER_assert(c, m) VF_ASSERT(c, m)
 #define VF_DEF_IN(T, name) static inline T vf_##name (void) { return VF_NEXT (T); }
+#define VF_SHOW(...) fprintf (stderr, "vf-show: " __VA_ARGS__)
 #else
 #define VF_ASSUME(c) __CPROVER_assume (c)
 #define VF_ASSERT(c, label) __CPROVER_assert ((c), "PROP: " label)
 #define VF_FINDING(c, key) __CPROVER_assert ((c), "FINDING:" key)
+#define VF_SHOW(...) do { } while (0)
 #ifdef VF_NO_WITNESS
 #define VF_WITNESS(label) do { } while (0)
 #else
